@@ -102,7 +102,12 @@ def desugar(loc, relfile, fn_paths, rules):
                     recv = src[v["recv"][0]:v["recv"][1]]
                     pat = src[v["pat"][0]:v["pat"][1]]
                     body = src[v["body"][0]:v["body"][1]]
-                    new = (f"{{ let mut pv_c = Vec::new(); let mut pv_k: usize = 0; while pv_k < {recv}.len() {{ let {pat} = &{recv}[pv_k]; pv_k += 1; pv_c.push({body}); }} pv_c.into() }}")
+                    if pat.startswith("&"):
+                        bind = f"let {pat[1:].strip()} = {recv}[pv_k];"      # `|&x|` binds a copy of the element
+                    else:
+                        bind = f"let {pat} = &{recv}[pv_k];"
+                    tail = "pv_c" if src[v["call"][0]:v["call"][1]].rstrip().endswith("collect::<Vec<_>>()") else "pv_c.into()"
+                    new = (f"{{ let mut pv_c = Vec::new(); let mut pv_k: usize = 0; while pv_k < {recv}.len() {{ {bind} pv_k += 1; pv_c.push({body}); }} {tail} }}")
                     rewrites.append((v["call"][0], v["call"][1], new))
                     records.append({"fn": fp, "rule": "D15 X.iter().map(|p| E).collect()  =>  { let mut out = Vec::new(); index loop { out.push(E) } out.into() }   (assumes FromIterator and From<Vec<_>> of the target agree)",
                                     "original": src[v["call"][0]:v["call"][1]], "rewritten": new})
